@@ -160,3 +160,21 @@ package jschema
 //@   may_panic
 //@   at call:Unquote assume len(arg0.data) <= 1099511627776
 //@   ensures forall i :: 0 <= i && i < len(result) ==> len(result[i]) > 0 && result[i][0] == 64
+
+//- the `or` list reader is the order-preserving filter of the list by "starts with '@'": only user type names
+//- are returned (no internal `#0x...` name of an unnamed type leaks into UsedUserTypes()), and the k-th such name of
+//- the list is the k-th result (none is dropped, none is reordered)
+//@ func UserTypeNamesFromTypesListConstraint
+//@   property C05 C09
+//@   may_panic
+//@   ensures forall i :: 0 <= i && i < len(result) ==> len(result[i]) > 0 && result[i][0] == 64
+//@   at call:Names.after bind names = ret0
+//@   loop#1 invariant -1 <= rangeindex && rangeindex < len(names) && (res.arr == 0 || (fresh(res.arr) && live(res.arr)))
+//@   loop#1 invariant forall i :: 0 <= i && i < len(res) ==> len(res[i]) > 0 && res[i][0] == 64
+//@   loop#1 invariant len(res) == atcount(names, rangeindex + 1)
+//@   loop#1 invariant forall j :: 0 <= j && j <= rangeindex + 1 ==> 0 <= atcount(names, j) && atcount(names, j) <= len(res)
+//@   loop#1 invariant forall j :: 0 <= j && j <= rangeindex && isat(names[j]) ==> atcount(names, j) < len(res) && res[atcount(names, j)] == names[j]
+//@   loop#1 use unfold_atcount(names, rangeindex + 1); unfold_atcount(names, 0)
+//@   at loop#1.back use unfold_atcount(names, rangeindex + 1)
+//@   at loop#1.entry use unfold_atcount(names, 0)
+//@   at return#4 assert len(result) == atcount(names, len(names)) && (forall j :: 0 <= j && j < len(names) && isat(names[j]) ==> result[atcount(names, j)] == names[j])
